@@ -318,7 +318,7 @@ def run_file(pl):
         if all(oks): variant = 'Q'
     res['variant'] = variant if sim == 'TOUGH+' else None
     # --- model predictions
-    def state_str(sn): return '%d/%s/%d' % (int(sn[0]), nav.zint(float(sn[1]), den), int(sn[2]))
+    def state_str(sn): return '%d/%s/%d' % (int(sn[0]), nav.zint(float(sn[1]), den), int(sn[2])) if sn[0] is not None else 'unreadable'
     sel_str = []
     for c in calls:
         items = ''
@@ -425,7 +425,10 @@ def run_file(pl):
             stats['ok'] += 1
             if mo is not None and mo.startswith('RAISE'): disagree(mo, 'returned normally')
             valid = [cell_key(it)[0] in names and any(v is not None for v in cells[cell_key(it)]) for it in sel]
-            after = nav.snap(l2, names)
+            try: after = nav.snap(l2, names)
+            except Exception as e:
+                after = (None, float('nan'), None, None)
+                fail('history:state-unreadable-after', 'reading index/time/step/tables after history() raised %s' % type(e).__name__, 'same current index, time, step and tables as before the call')
             if r is None:
                 stats['none'] += 1
                 got = None
@@ -498,12 +501,18 @@ def run_file(pl):
             if k < 12 or k % 4 == 0 or pl['thorough']:
                 stats['next_prev_after'] = stats.get('next_prev_after', 0) + 1
                 i0 = int(before[0])
-                if i0 < n - 1: mv, j = l2.next(), i0 + 1
-                elif i0 > 0: mv, j = l2.prev(), i0 - 1
-                else: mv, j = l2.next(), i0
-                s2 = nav.snap(l2, names)
-                if not ((mv == (j != i0)) and int(s2[0]) == j and same_float(s2[1], fresh[j][1]) and s2[2] == fresh[j][2] and s2[3] == fresh[j][3]):
-                    fail('history:next-prev-after', 'after history() at index %d, next/prev returned %r and shows index %r' % (i0, mv, s2[0]), 'the neighbouring result set, as from the restored state')
+                try:
+                    if i0 < n - 1: mv, j = l2.next(), i0 + 1
+                    elif i0 > 0: mv, j = l2.prev(), i0 - 1
+                    else: mv, j = l2.next(), i0
+                    s2 = nav.snap(l2, names)
+                    if not ((mv == (j != i0)) and int(s2[0]) == j and same_float(s2[1], fresh[j][1]) and s2[2] == fresh[j][2] and s2[3] == fresh[j][3]):
+                        fail('history:next-prev-after', 'after history() at index %d, next/prev returned %r and shows index %r' % (i0, mv, s2[0]), 'the neighbouring result set, as from the restored state')
+                except Exception as e:
+                    fail('history:next-prev-after', 'after history() at index %d, next()/prev() raised %s' % (i0, type(e).__name__), 'the neighbouring result set, as from the restored state')
+                    try: l2.close()
+                    except Exception: pass
+                    l2 = None
             if len(samples) < 2 and got is not None:
                 samples.append({'file': pl['label'], 'selection': nav.sel_to_json(sel), 'index': c['index'], 'first_values': [float(x) for x in got[0][1][:3]]})
     try:
@@ -539,7 +548,7 @@ def run_all(ctx, exe, files, cap, timeout, calls_for=None):
         try: return j, vf.run_impl(WORKER, j, timeout=timeout, repo=ctx.repo), None
         except subprocess.TimeoutExpired: return j, None, 'timeout'
         except Exception as e: return j, None, repr(e)[-1500:]
-    with ThreadPoolExecutor(max_workers=vf.NPROC) as ex:
+    with ThreadPoolExecutor(max_workers=min(8, vf.NPROC)) as ex:
         return list(ex.map(one, jobs))
 
 
